@@ -548,6 +548,36 @@ C17TwoHop(pre, e, post) ==
      /\ Sub("threshold", IF e.args.exactIn THEN e.args.threshold \preceq got ELSE paid \preceq e.args.threshold)
      /\ Sub("amount_bound", IF e.args.exactIn THEN paid \preceq e.args.amount ELSE got \preceq e.args.amount)
 
+(* C03 for two-hop swaps: each leg moves its pool's price only in its trade direction, within the protocol
+   bounds and not beyond that leg's limit; the specified side is used in full unless the price limit of
+   the specified leg was reached (exact-in: leg one, exact-out: leg two); thresholds and the amount bound
+   apply to what the trader actually pays / receives.                                             *)
+C03Leg(pre, post, q, aToB, limit) ==
+  LET p0  == pre.pool[q].sqrtPrice
+      p1  == post.pool[q].sqrtPrice
+      lim == IF limit \doteq 0 THEN (IF aToB THEN MinSqrtPrice ELSE MaxSqrtPrice) ELSE limit
+  IN /\ IF aToB THEN p1 \preceq p0 ELSE p0 \preceq p1
+     /\ MinSqrtPrice \preceq p1 /\ p1 \preceq MaxSqrtPrice
+     /\ IF aToB THEN lim \preceq p1 ELSE p1 \preceq lim
+LegAtLimit(post, q, aToB, limit) ==
+  post.pool[q].sqrtPrice \doteq (IF limit \doteq 0 THEN (IF aToB THEN MinSqrtPrice ELSE MaxSqrtPrice) ELSE limit)
+C03TwoHop(pre, e, post) ==
+  LET a    == e.args
+      th   == e.twohop
+      q1   == e.slots.whirlpool_one.id
+      q2   == e.slots.whirlpool_two.id
+      paid == 0 -- Delta(pre, post, th.acctIn)
+      got  == Delta(pre, post, th.acctOut)
+  IN th.present =>
+     /\ Sub("leg_one_price", C03Leg(pre, post, q1, a.aToB1, a.limit1))
+     /\ Sub("leg_two_price", C03Leg(pre, post, q2, a.aToB2, a.limit2))
+     /\ Sub("amount_bound", IF a.exactIn THEN paid \preceq a.amount ELSE got \preceq a.amount)
+     /\ Sub("less_only_at_limit", IF a.exactIn THEN (paid \prec a.amount => LegAtLimit(post, q1, a.aToB1, a.limit1))
+                                                ELSE (got \prec a.amount => LegAtLimit(post, q2, a.aToB2, a.limit2)))
+     /\ Sub("exact_out_without_limit_is_full", (~a.exactIn /\ a.limit2 \doteq 0) => got \doteq a.amount)
+     /\ Sub("threshold", IF a.exactIn THEN a.threshold \preceq got ELSE paid \preceq a.threshold)
+     /\ Sub("positive_amount", 0 \prec a.amount)
+
 (* C10: a swap crosses exactly the initialized ticks in its path.  Stated on tick indexes: going
    down, a crossing of T leaves tick_current = T - 1, so the ticks crossed are the initialized T with
    post.tick < T <= pre.tick; going up, crossing T leaves tick_current = T: pre.tick < T <= post.tick.
@@ -738,6 +768,7 @@ IxOK(pre, e, post) ==
   /\ IF IsSwapName(e.name) THEN Chk("C10", "path", C10Swap(pre, e, post)) ELSE TRUE
   /\ Chk("C10", "packaging", C10Pack(pre, e))
   /\ Chk("C17", "two_hop", C17TwoHop(pre, e, post))
+  /\ IF e.name \in {"two_hop_swap", "two_hop_swap_v2"} THEN Chk("C03", "two_hop_bounds", C03TwoHop(pre, e, post)) ELSE TRUE
   /\ Chk("C04", "authorised", Guard(pre, e))
   /\ Chk("C15", "accounts_belong", Guard(pre, e))
   /\ Chk("C12", "anchor_equals_pinocchio", DualOK(e))
